@@ -69,7 +69,11 @@ class ValidationError(Exception):
     def _errors(self) -> Iterator[Tuple[List[ErrorKey], ErrorMsg]]:
         for msg in self.messages:
             yield [], msg
-        for child_key in sorted(self.children):
+        try:
+            child_keys = sorted(self.children)
+        except TypeError:  # keys of different types (non-JSON input data)
+            child_keys = sorted(self.children, key=lambda k: (type(k).__name__, repr(k)))
+        for child_key in child_keys:
             for path, error in self.children[child_key]._errors():
                 yield [child_key, *path], error
 
